@@ -278,6 +278,49 @@ fn op_hist14(ops: &str) -> String {
                             Err(_) => pre = "R[err]".into(),
                         }
                     }
+                    "t" => {
+                        // one rotation tick of the real timer handler: t<round>/<seeder>/<k=dl:ul,...> ('-' = not reported)
+                        let f: Vec<&str> = rest.split('/').collect();
+                        *s.verif_round() = f[0].parse().unwrap();
+                        let seeder = f[1] == "1";
+                        for st in s.verif_statuses().iter_mut() {
+                            *st = if seeder { Status::Have } else { Status::Missing };
+                        }
+                        for (_, p) in s.verif_peers().iter_mut() {
+                            p.download_rate = None;
+                            p.uploaded_rate = None;
+                        }
+                        if !f[2].is_empty() {
+                            for kv in f[2].split(',') {
+                                let (k, v) = kv.split_once('=').unwrap();
+                                let (d, u) = v.split_once(':').unwrap();
+                                if let Some(p) = s.verif_peers().get_mut(&addr_of(k.parse().unwrap())) {
+                                    p.download_rate = d.parse().ok();
+                                    p.uploaded_rate = u.parse().ok();
+                                }
+                            }
+                        }
+                        let mut brx = s.verif_subscribe();
+                        match s.verif_rotation_tick().await {
+                            Ok(()) => {
+                                let m = match brx.try_recv() {
+                                    Ok(BroadCmd::SendOwnState { am_choked_map }) => {
+                                        let mut m: Vec<(usize, bool)> = am_choked_map.iter().map(|(a, b)| (idx_of(a), *b)).collect();
+                                        m.sort();
+                                        format!(
+                                            "={}",
+                                            m.iter().map(|(k, b)| format!("{}:{}", k, if *b { 'c' } else { 'u' })).collect::<Vec<_>>().join(".")
+                                        )
+                                    }
+                                    Ok(_) => "?".to_string(),
+                                    Err(_) => "-".to_string(),
+                                };
+                                let round = *s.verif_round();
+                                pre = format!("T[{}][{}]", round, m);
+                            }
+                            Err(_) => pre = "T[err]".into(),
+                        }
+                    }
                     _ => panic!("bad C14 op"),
                 }
                 out.push(format!("{}{}", pre, snap14(&mut s)));
@@ -295,9 +338,65 @@ pub fn run14(args: &[&str]) -> String {
     }
 }
 
+/// A rotation tick: round, seeder flag, pairwise distinct rates (the order of ties depends on the hash map's
+/// iteration order); with `partial`, some peers have not reported one or both rates yet.
+fn tick14(r: &mut Rng, present: &[usize], partial: bool) -> String {
+    let mut vals: Vec<u32> = (0..present.len() as u32 * 2 + 2).collect();
+    r.shuffle(&mut vals);
+    let mut vals2 = vals.clone();
+    r.shuffle(&mut vals2);
+    let rates: Vec<String> = present
+        .iter()
+        .enumerate()
+        .map(|(j, k)| {
+            let d = if partial && r.chance(1, 4) { "-".to_string() } else { vals[j].to_string() };
+            let u = if partial && r.chance(1, 4) { "-".to_string() } else { vals2[j].to_string() };
+            format!("{}={}:{}", k, d, u)
+        })
+        .collect();
+    format!("t{}/{}/{}", r.below(3), r.below(2), rates.join(","))
+}
+
 pub fn gen14(r: &mut Rng, n: usize) -> Vec<String> {
     let mut out = vec![];
-    for _ in 0..n {
+    for case in 0..n {
+        if case % 8 == 7 {
+            // a full house of interested peers waiting for a slot, a few fresh connections that were unchoked on
+            // their bitfield and have not reported rates yet, then the timer fires
+            let waiting = 9 + r.below(6) as usize;
+            let fresh = 1 + r.below(3) as usize;
+            let mut ops: Vec<String> = vec![];
+            let mut present: Vec<usize> = vec![];
+            for k in 0..waiting {
+                ops.push(format!("a{}", k));
+                ops.push(format!("i{}", k));
+                present.push(k);
+            }
+            if r.chance(1, 2) {
+                ops.push(tick14(r, &present, false));
+            }
+            for k in waiting..waiting + fresh {
+                ops.push(format!("a{}", k));
+                if r.chance(1, 2) {
+                    ops.push(format!("i{}", k));
+                }
+                ops.push(format!("b{}", k));
+            }
+            let mut t = tick14(r, &present, false);
+            if r.chance(1, 3) {
+                present.extend(waiting..waiting + fresh);
+                let partial = r.chance(1, 2);
+                t = tick14(r, &present, partial);
+            }
+            ops.push(t);
+            present = (0..waiting + fresh).collect();
+            for _ in 0..r.below(4) {
+                let partial = r.chance(1, 3);
+                ops.push(tick14(r, &present, partial));
+            }
+            out.push(format!("hist {}", ops.join(";")));
+            continue;
+        }
         let max_peers = match r.below(3) {
             0 => 1 + r.below(6) as usize,
             1 => 9 + r.below(5) as usize,
@@ -335,6 +434,9 @@ pub fn gen14(r: &mut Rng, n: usize) -> Vec<String> {
             } else if roll < 72 {
                 let i = r.below(present.len() as u64) as usize;
                 ops.push(format!("k{}", present.remove(i)));
+            } else if roll < 82 {
+                let partial = r.chance(1, 3);
+                ops.push(tick14(r, &present, partial));
             } else {
                 // rotation: rates with ties, in random vector order; new_optimistic chosen from the snapshot
                 let snap = op_hist14(&ops.join(";"));
